@@ -553,6 +553,103 @@ class C18(Prop):
                 book = nb
         return fill and fired and dropped
 
+    def monitor(self, stream, annot, impl):
+        """the property's rules, re-evaluated per resting order on the implementation's own trace (exact rationals; where the
+        binary64 product limit*1.1 / limit*0.9 and the exact one decide differently, either answer is accepted)"""
+        tried = set()      # IOC ids already visited by a tick that quoted their asset
+        nxt = 0
+        for k, op, s, book, batch, ticks in walk_exchange(stream, annot, impl):
+            if op.startswith("RESET"):
+                tried, nxt = set(), 0
+            if op.startswith("T ") and "F" in s and "B" in s and "PANIC" not in s:
+                t = op.split(" A ")[0].split()
+                nq = int(t[1])
+                quotes = {t[2 + 4 * i]: (t[3 + 4 * i], t[4 + 4 * i], int(t[5 + 4 * i])) for i in range(nq)}
+                fills = jura_fills(s["F"][1:])
+                post = {o["id"]: o for o in jura_book(s["B"][1:])}
+                kids = [int(x) for x in s["K"][1:]] if "K" in s else []
+                pre_ids = {o["id"] for o in book}
+                byid = {}
+                for f in fills:
+                    if f["oid"] in byid:
+                        yield (k, "at-most-one-fill-per-order", f"order {f['oid']} filled twice in one tick")
+                        return
+                    byid[f["oid"]] = f
+                    if f["oid"] not in pre_ids:
+                        yield (k, "eligible-only-from-the-following-tick", f"fill for id {f['oid']}, which was not resting when the tick began (resting: {sorted(pre_ids)})")
+                        return
+                fired = []
+                for o in book:
+                    q = quotes.get(o["asset"])
+                    f = byid.get(o["id"])
+                    px = fr(o["px"])
+                    want = None          # None = either answer accepted
+                    if o["kind"] == "L:ioc":
+                        if q is None:
+                            want = False
+                        elif o["id"] in tried:
+                            want = False
+                            if o["id"] in post:
+                                yield (k, "ioc-dropped-after-its-one-attempt", f"IOC order {o['id']} was tried before and still rests after a tick quoting its asset")
+                                return
+                        else:
+                            tried.add(o["id"])
+                            if o["buy"]:
+                                ex, fl = fr(q[1]) <= px * Fraction(11, 10), fdec(q[1]) <= fdec(o["px"]) * (1.0 + 0.1)
+                            else:
+                                ex, fl = fr(q[0]) >= px * Fraction(9, 10), fdec(q[0]) >= fdec(o["px"]) * (1.0 - 0.1)
+                            want = ex if ex == fl else None
+                    elif o["kind"] == "L:gtc":
+                        want = q is not None and (fr(q[1]) <= px if o["buy"] else fr(q[0]) >= px)
+                        if not want and o["id"] not in post:
+                            yield (k, "gtc-rests-until-its-price", f"GTC order {o['id']} (limit {fdec(o['px'])}, quote {q and (fdec(q[0]), fdec(q[1]))}) neither filled nor resting")
+                            return
+                    elif o["kind"].startswith("T:"):
+                        want = False
+                        _, trg, mkt, tpsl = o["kind"].split(":")
+                        trg = fr(trg)
+                        fire = q is not None and {("sl", True): fr(q[1]) >= trg, ("sl", False): fr(q[0]) <= trg,
+                                                   ("tp", True): fr(q[1]) <= trg, ("tp", False): fr(q[0]) >= trg}[(tpsl, o["buy"])] if q is not None else False
+                        if fire:
+                            fired.append((o, mkt == "1"))
+                            if o["id"] in post:
+                                yield (k, "trigger-fires-iff-condition", f"trigger {o['id']} ({o['kind']}, quote {(fdec(q[0]), fdec(q[1]))}) should have fired but still rests")
+                                return
+                        elif o["id"] not in post:
+                            yield (k, "trigger-fires-iff-condition", f"trigger {o['id']} ({o['kind']}, quote {q and (fdec(q[0]), fdec(q[1]))}) should not fire but left the book")
+                            return
+                    else:
+                        continue
+                    if want is True and f is None:
+                        yield (k, "fill-iff-condition", f"order {o['id']} {o['kind']} {'buy' if o['buy'] else 'sell'} limit {fdec(o['px'])} on quote {(fdec(q[0]), fdec(q[1]))}: expected a fill, none reported")
+                        return
+                    if want is False and f is not None:
+                        yield (k, "fill-iff-condition", f"order {o['id']} {o['kind']} {'buy' if o['buy'] else 'sell'} limit {fdec(o['px'])} (tried before: {o['id'] in tried and o['kind'] == 'L:ioc'}) on quote {q and (fdec(q[0]), fdec(q[1]))}: no fill expected, got {f}")
+                        return
+                    if f is not None:
+                        good = (f["coin"] == o["asset"] and tok_same(f["sz"], o["sz"]) and f["time"] == q[2]
+                                and tok_same(f["px"], q[1] if o["buy"] else q[0]) and f["side"] == ("A" if o["buy"] else "B"))
+                        if not good:
+                            yield (k, "fill-carries-id-asset-size-quote-price-date", f"fill {f} for order {o} on quote {q}")
+                            return
+                # children: one per fired trigger, fresh consecutive ids announced in K, resting (not filled) afterwards
+                if len(kids) != len(fired) or kids != list(range(nxt, nxt + len(kids))):
+                    yield (k, "children-announced-with-fresh-ids", f"fired {[o['id'] for o, _ in fired]}, announced {kids}, next id was {nxt}")
+                    return
+                for (o, mkt), cid in zip(fired, kids):
+                    c = post.get(cid)
+                    ok = c is not None and c["kind"] == ("L:ioc" if mkt else "L:gtc") and c["asset"] == o["asset"] and c["buy"] == o["buy"] \
+                        and tok_same(c["px"], o["px"]) and tok_same(c["sz"], o["sz"])
+                    if not ok:
+                        yield (k, "firing-replaces-trigger-with-limit-child", f"trigger {o} fired, child id {cid} is {c}")
+                        return
+            if "X" in s:
+                nxt = int(s["X"][0])
+
+
+def tok_same(a, b):
+    return a == b or (FLOAT_TOK.match(a) and FLOAT_TOK.match(b) and fdec(a) == fdec(b))
+
 
 # ---------------------------------------------------------------- server protocol
 
@@ -1831,6 +1928,9 @@ class C20(Prop):
                 return
             if s.get("SEQ") == ["false"]:
                 yield (k, "round-trip-keeps-meaning", f"{op}: after the request the server state differs from the in-process twin's")
+                return
+            if s.get("TC") == ["false"]:
+                yield (k, "test-client-equals-in-process", f"{op.split(' A ')[0]}: the same call through uistv1_client::TestClient returned a different result, or left its state different, than the call on AppState")
                 return
             if s.get("CL") == ["false"]:
                 yield (k, "repository-client-over-tcp-equals-in-process", f"{op.split(' A ')[0]}: the same call through the repository's reqwest client against a real HttpServer on 127.0.0.1 returned a different result, or left that server in a different state, than the in-process call")
